@@ -130,6 +130,20 @@ SCALAR = {  # fn: (arity, model wrapper)
 }
 AXIS = [0.0, -0.0, 1.0, -1.0, 1e-300, -1e-300, 1e300, -1e300, 5e-324, 3.0, -4.0]
 MAGS = [0.0, -0.0, 1.0, -1.0, 3.0, 4.0, 1e-300, 1e300, 1e-200, -1e200, 5e-324, 1.7e308, 1e-160, 1e160]
+# components whose SQUARES are about to overflow / underflow although the norm is representable (seeded change C11-13: a
+# "well-scaled" fast path sqrt(x*x + y*y) guarded by the largest component alone): multiples of sqrt(MAX) and sqrt(MIN) of
+# binary64 and binary32
+SQRT_EDGE = [m * b for b in (2.0 ** 512, 2.0 ** -511, 2.0 ** 64, 2.0 ** -63) for m in (0.55, 0.62, 0.71, 0.75, 0.88, 0.97, 0.999, -0.8, -0.95)]
+
+
+_EDGE = set(abs(v) for v in SQRT_EDGE)
+
+
+def sample_keep_edge(r, pts, k):
+    """quick tier: a sample of k of the special points, plus every point made of SQRT_EDGE components only"""
+    edge = [a for a in pts if all(abs(v) in _EDGE for v in a)]
+    rest = [a for a in pts if not all(abs(v) in _EDGE for v in a)]
+    return (r.sample(rest, k) if len(rest) > k else rest) + edge
 
 
 def special_points(fn):
@@ -153,10 +167,11 @@ def special_points(fn):
         return [(y, x) for y in pts for x in pts]
     if fn in ("norm2", "c2p"):
         pts = MAGS + [INF, -INF, NAN]
-        return [(x, y) for x in pts for y in pts]
+        return [(x, y) for x in pts for y in pts] + ([(x, y) for x in SQRT_EDGE for y in SQRT_EDGE if 0.2 < abs(x / y) < 5] if fn == "norm2" else [])
     if fn in ("norm3", "c2s"):
         pts = [0.0, -1.0, 3.0, 1e-300, 1e300, 5e-324, 1.7e308, INF, NAN]
-        return [(x, y, z) for x in pts for y in pts for z in pts]
+        return [(x, y, z) for x in pts for y in pts for z in pts] + ([(x, y, z) for x in SQRT_EDGE[::2] for y in SQRT_EDGE[1::2] for z in SQRT_EDGE[::3]
+                                                                     if 0.2 < abs(x / y) < 5 and 0.2 < abs(x / z) < 5] if fn == "norm3" else [])
     if fn in ("r2d", "d2r"):
         return [(x,) for x in [0.0, 1.0, -180.0, 1e300, 1e-300, math.pi]]
     if fn == "p2c":
@@ -239,7 +254,7 @@ def gen_scalar(ctx, nrand):
     for fn in SCALAR:
         pts = special_points(fn)
         if ctx.quick and len(pts) > 260:
-            pts = r.sample(pts, 260)
+            pts = sample_keep_edge(r, pts, 260)
         for a in pts:
             cases.append(scalar_case(fn, a))
         for _ in range(nrand):
@@ -505,6 +520,59 @@ def list_oracle(case, out):
 
 
 # ----------------------------------------------------------------------------------------------- running
+CFG_ARRAY_FNS = ("sum", "sum1", "sum2", "sum_", "sum1_", "sum2_", "dot", "dot_", "copy", "copy_", "swap", "swap_", "fill", "zero",
+                 "pushf", "pushb", "rollf", "rollb", "pushf_", "pushb_", "rollf_", "rollb_")
+
+
+def gen_list_int(ctx, nper):
+    """the histories of gen_list with every value a small integer (exactly representable in binary32 and above)"""
+    global rvals
+    saved, saved_rd = rvals, fcorr.rand_double
+    rvals = lambda r, n, wild=True: [float(r.randint(-9, 9)) for _ in range(n)]
+    fcorr.rand_double = lambda r: float(r.randint(-9, 9))
+    try:
+        cases = gen_list(ctx, nper)
+    finally:
+        rvals, fcorr.rand_double = saved, saved_rd
+
+    def small(c):
+        vals = [v for l in c.get("lists", []) for v in l] + list(c.get("scal", []))
+        return all(v == v and abs(v) <= 1000 and v == int(v) and not (v == 0 and math.copysign(1, v) < 0) for v in vals)
+    return [c for c in cases if c["fn"] in CFG_ARRAY_FNS and small(c)]
+
+
+def cfg_array_sweep(ctx, srcs, nrep):
+    cases = gen_list_int(ctx, 25 if ctx.quick else 300)
+    done = 0
+    for real, name in ((4, "float"), (16, "long double")):
+        try:
+            b = ctx.cc("drv_arr_r%d" % real, [H / "drv.c"], repo_srcs=srcs, mode="num", have=1, real=real, extra=["-fsanitize=address", "-g"])
+        except vlib.CheckError as e:
+            ctx.tie_broken("array helpers, a_real = %s: the driver does not build: %s" % (name, str(e)[:300]))
+            continue
+        outs, crashes = run_c_cases(b, cases)
+        for (i, rc, err) in crashes[:2]:
+            if nrep < 10:
+                ctx.report("%s/array/%s" % (cases[i]["fn"], name.replace(" ", "-")),
+                           "a_real = %s: the driver stopped (rc %s) on %s: %s" % (name, rc, cases[i]["line"], " ".join(err.split())[-400:]),
+                           {"case": cases[i]["line"], "configuration": "A_SIZE_REAL %d" % real, "how": "echo '<case>' | build/C11/drv_arr_r%d" % real})
+                nrep += 1
+        for i, c in enumerate(cases):
+            if outs[i] is None:
+                continue
+            done += 1
+            why = list_oracle(c, [fcorr.fval(t) for t in outs[i]])
+            if why and nrep < 10:
+                ctx.report("%s/array/%s" % (c["fn"], name.replace(" ", "-")), "a_real = %s: %s" % (name, why),
+                           {"case": c["line"], "configuration": "A_SIZE_REAL %d" % real, "c_output": outs[i],
+                            "how": "echo '<case>' | build/C11/drv_arr_r%d" % real})
+                nrep += 1
+    ctx.count(evaluations=done)
+    ctx.log("array helpers in the float and long double builds: %d integer-data cases x 2 configurations, ASan" % len(cases))
+    ctx.cov["array_helpers_other_widths"] = {"cases": len(cases), "configurations": ["A_SIZE_REAL 4", "A_SIZE_REAL 16"], "functions": list(CFG_ARRAY_FNS)}
+    return nrep
+
+
 def run_c_cases(binary, cases, timeout=600):
     """Run the C harness over the cases; a crash (ASan abort, SIGFPE, ...) is attributed to the case being processed and
     the run resumes after it.  Returns (outputs: list of token lists or None, crashes: [(index, rc, stderr tail)])."""
@@ -586,7 +654,7 @@ def acc_points(ctx, nrand):
         base = "norm2" if fn == "hypot" else fn
         sp = [a for a in special_points(base) if in_domain(base, a)]
         if ctx.quick and len(sp) > 80:
-            sp = r.sample(sp, 80)
+            sp = sample_keep_edge(r, sp, 80)
         pts += [(fn, a) for a in sp]
         k = 0
         while k < nrand:
@@ -770,6 +838,11 @@ def run_ties(ctx):
         else:
             b = branch_of(c["fn"], c["args"])
             branches[b] = branches.get(b, 0) + 1
+
+    # ------------------------------------------------------------------ array helpers in the float and long double builds
+    # (seeded change C11-14: sizeof(pointer) for sizeof(a_real), invisible with 8-byte reals).  Small-integer data, exact in
+    # every format, so the defining list operation gives the expected cells / sums bit for bit; ASan on the blocks.
+    nrep = cfg_array_sweep(ctx, srcs, nrep)
 
     # ------------------------------------------------------------------ Tie 2: accuracy in both configurations, both widths
     pts = [(c["fn"], c["args"]) for c in corpus if in_domain(c["fn"], c["args"])] + acc_points(ctx, 60 if ctx.quick else 1500)
